@@ -857,15 +857,16 @@ async fn exec(ctx: &mut Ctx, line: &str) -> OpResult {
             t.end().map_err(bad)?;
             Ok("Q".to_string())
         }
-        "MODE" => {
+        // The push-mode ops do not exist outside push mode (they are unknown ops there).
+        "MODE" if ctx.push.is_some() => {
             let mode = t.next().map_err(bad)?;
             t.end().map_err(bad)?;
-            if mode != "push" || ctx.push.is_none() {
-                return Err(bad("MODE push must be the first op line".into()));
+            if mode != "push" {
+                return Err(bad(format!("unknown mode '{}'", mode)));
             }
             Ok("MODE".to_string())
         }
-        "EP" => {
+        "EP" if ctx.push.is_some() => {
             let push = ctx
                 .push
                 .as_ref()
@@ -893,7 +894,7 @@ async fn exec(ctx: &mut Ctx, line: &str) -> OpResult {
             push.shared.lock().unwrap().scripts[k].extend(outcomes);
             Ok("EP".to_string())
         }
-        "ROUND" => {
+        "ROUND" if ctx.push.is_some() => {
             t.end().map_err(bad)?;
             let push = ctx
                 .push
@@ -933,7 +934,7 @@ async fn exec(ctx: &mut Ctx, line: &str) -> OpResult {
             }
             Ok(s)
         }
-        "LOOP" => {
+        "LOOP" if ctx.push.is_some() => {
             let interval_ms: u64 = t.num().map_err(bad)?;
             let rounds: u64 = t.num().map_err(bad)?;
             t.end().map_err(bad)?;
